@@ -58,7 +58,7 @@ def run(ctx: Ctx) -> int:
         "C09", "translation_validation", cov, kcounts, kres,
         "programs = family D over `txn Fee` compared with constants {0,1,1000,271999,272000,272001,2^64-1} (6 ops, both operand orders, condition trees, all shapes "
         "<= 3/4 statements, layouts, repo corpus); the fee and every other input are solver variables; non-trivial = a non-default bound was checked on a feasible accepting path",
-        [FeeField._get_asserted_fee, FeeField._get_asserted_max_value, FeeField._union, FeeField._intersection, FeeField._store_results, D._get_asserted, D.run_analysis],
+        [lambda: FeeField._get_asserted_fee, lambda: FeeField._get_asserted_max_value, lambda: FeeField._union, lambda: FeeField._intersection, lambda: FeeField._store_results, lambda: D._get_asserted, lambda: D.run_analysis],
         {"unroll": 2, "call_depth": 3, "fuel": 400, "constants": "K: all uint64 c and all uint64 fees; S: alphabet", "crosshair_timeout_s": 40 if ctx.quick else 120},
         ["EXACT mode: well-formed transactions", "'unknown' bound means bounded by MAX_TRANSACTION_COST (the only fact consumers use)",
          "programs comparing Fee with run-time values are outside the claim (documented heuristic) and are skipped for the 'unknown' clause"],
